@@ -4,7 +4,7 @@
    over a chunk schedule). Spec: Spec/Framing.v `ref_frames` (cut by the length field only). *)
 From Coq Require Import NArith List.
 From Rodbus Require Import Base.Outcome Base.Frame Model.Buffer Model.Mbap Model.Reader Spec.Framing Model.FramingEval
-  Proofs.BufferProofs Proofs.ReaderGeneric Proofs.MbapProofs Proofs.C05Proofs.
+  Gen.Consts Gen.ParserShape Proofs.BufferProofs Proofs.ReaderGeneric Proofs.MbapProofs Proofs.C05Proofs Proofs.ShapeProofs.
 Import ListNotations.
 
 (* For EVERY byte stream s and EVERY way of cutting it into network reads (each read hands over
@@ -132,6 +132,30 @@ Theorem C05_continue_step : forall r t n r1 l1, tcp_represents r t ->
   snd (ref_frames (t ++ fst (sched_stream n FinPending)) FinPending) = EndPending.
 Proof. intros r t n r1 l1 H E. rewrite ReaderGeneric.sched_stream_eq. exact (tcp_represents_step r t n r1 l1 H E). Qed.
 Print Assumptions C05_continue_step.
+
+(* PARSER SKELETON TIE. Gen/ParserShape.v lists, regenerated from tcp/frame.rs on every run, the reads and
+   checks of MbapParser::parse_header and the steps of the two arms of MbapParser::parse IN THE CODE'S ORDER.
+   The model's parser is the interpretation of those lists: header = four reads (7 bytes, all before any
+   check), then protocol id, then length > MAX_LENGTH_FIELD, then length = 0; a re-ordered or dropped check in
+   the code changes the generated list and these statements stop compiling. *)
+Theorem C05_header_shape : forall h, length h = 7 -> hdr h = run_hsteps mbap_header_steps h hfields0.
+Proof. exact mbap_header_shape. Qed.
+Print Assumptions C05_header_shape.
+Theorem C05_header_consumes : hsteps_read_bytes mbap_header_steps = Consts.mbap_header_length /\ no_read_after_check mbap_header_steps false = true.
+Proof. exact mbap_header_consumes. Qed.
+Print Assumptions C05_header_consumes.
+Theorem C05_parser_shape : forall st b, wf b -> st_ok st ->
+  mbap_parse st b =
+  (let '(st', b', r) :=
+     match st with
+     | Header tx u n => run_header_arm mbap_header_arm tx u n (Header tx u n) b []
+     | Begin => match run_begin_arm mbap_begin_arm b None with
+                | inl res => res
+                | inr (tx, u, n, b') => run_header_arm mbap_header_arm tx u n (Header tx u n) b' []
+                end
+     end in (st', b', lift_s r)).
+Proof. exact mbap_model_shape. Qed.
+Print Assumptions C05_parser_shape.
 
 (* Client role: ONE reader serves all connections of a channel and ClientLoop::run resets it when
    a connection starts (the repaired F5). Whatever state an earlier connection left behind, every
